@@ -41,6 +41,12 @@ impl ConvertPacket<MessageEvent> for MessageEvent {
         let receiver_address = packet.device_address;
         let transmitter_address = u16::from_be_bytes(packet.data[2..=3].try_into().unwrap());
         let code = u16::from_be_bytes(packet.data[4..=5].try_into().unwrap());
+        let tag = u32::from_ne_bytes(packet.data[6..=9].try_into().unwrap());
+
+        if tag > 3 || (tag == 3 && packet.data[10] > 1) {
+            return Err(ConvertPacketError::UnknownEnumVariant);
+        }
+
         let value = unsafe {
             transmute_copy::<[u8; size_of::<MessageValue>()], MessageValue>(
                 &packet.data[6..6 + size_of::<MessageValue>()]
